@@ -1168,6 +1168,7 @@ def _apply_rolling(
     values = _val_to_numpy(values, as_list=True)
     _check_row_aligned_lengths(group_key, values, mask)
     values, orig_dtypes = zip(*list(map(_cast_timestamps_to_ints, values)))
+    values = NumbaList(values)  # zip gives a tuple, which the kernels cannot iterate when chunked
     orig_dtype = orig_dtypes[0]
     values_are_times = orig_dtype.kind in "mM"
 
@@ -1778,6 +1779,7 @@ def _apply_cumulative(
     values = _val_to_numpy(values, as_list=True)
     _check_row_aligned_lengths(group_key, values, mask)
     values, orig_dtypes = zip(*list(map(_cast_timestamps_to_ints, values)))
+    values = NumbaList(values)  # zip gives a tuple, which the kernels cannot iterate when chunked
     orig_dtype = orig_dtypes[0]
 
     target = _build_target_for_groupby(
